@@ -11,11 +11,13 @@ package keystore
 import (
 	"bytes"
 	"fmt"
+	"massnet.org/mass/zz_verif/vsync"
 	"os"
 	"os/exec"
 	"regexp"
 	"runtime"
 	"sort"
+	"strconv"
 	"strings"
 	"sync"
 	"testing"
@@ -634,9 +636,43 @@ func c14Pair(calls []*c14Call) string {
 var c14RaceFn = regexp.MustCompile(`massnet\.org/mass/poc/wallet/keystore\.\(?\*?([A-Za-z]+)\)?\.([A-Za-z]+)\(\)`)
 
 // c14RaceBody runs one scenario free (no scheduler): called in the -race binary.
+// c14RaceBody runs the scenario's threads free under the race detector. The detector judges by happens-before
+// order, and the wallet's two mutex levels (manager, keystore) order most pairs of accesses in most runs, so the
+// runs are not left to chance: besides staggered starts, ONE delay is injected per run before the k-th lock
+// acquisition of one thread - for every thread and every k that an undisturbed run of the scenario performs
+// (delay-bounded schedule enumeration, bound 1; the lock acquisitions are seen through the vsync shim).
 func c14RaceBody(sc c14Scenario, reps int) {
 	obs := newWObs()
-	for rep := 0; rep < reps; rep++ {
+	n := len(sc.Threads)
+	type plan struct {
+		thread, k int
+		d         time.Duration
+		leader    int
+		head      time.Duration
+	}
+	var plans []plan
+	plans = append(plans, plan{thread: -1, leader: -1}) // undisturbed: counts the lock acquisitions per thread
+	var counts []int
+	var mu sync.Mutex
+	threadOf := map[string]int{}
+	var cur plan
+	vsync.SetHook(func(kind string) {
+		id := c14Goid()
+		mu.Lock()
+		th, ok := threadOf[id]
+		var k int
+		if ok {
+			k = counts[th]
+			counts[th]++
+		}
+		p := cur
+		mu.Unlock()
+		if ok && th == p.thread && k == p.k {
+			time.Sleep(p.d)
+		}
+	})
+	defer vsync.SetHook(nil)
+	for rep := 0; rep < len(plans); rep++ {
 		in, err := wOpenF(wQ0, false, nil, false)
 		if err != nil {
 			vk.Fatalf("open: %v", err)
@@ -646,23 +682,70 @@ func c14RaceBody(sc c14Scenario, reps int) {
 		for i, o := range sc.Setup {
 			c.step(in, m, o, sc.Setup[:i+1], false)
 		}
+		mu.Lock()
+		cur = plans[rep]
+		counts = make([]int, n)
+		threadOf = map[string]int{}
+		mu.Unlock()
 		var wg sync.WaitGroup
 		start := make(chan struct{})
-		for _, prog := range sc.Threads {
+		for ti, prog := range sc.Threads {
 			wg.Add(1)
-			go func(prog []wOp) {
+			go func(ti int, prog []wOp) {
 				defer wg.Done()
 				defer func() { recover() }()
+				id := c14Goid()
 				<-start
+				if cur.leader >= 0 && ti != cur.leader {
+					time.Sleep(cur.head)
+				}
+				mu.Lock()
+				threadOf[id] = ti
+				mu.Unlock()
 				for _, o := range prog {
 					c14Apply(in, wResolve(m, o), obs)
 				}
-			}(prog)
+				mu.Lock()
+				delete(threadOf, id)
+				mu.Unlock()
+			}(ti, prog)
 		}
 		close(start)
 		wg.Wait()
 		in.close()
+		if rep == 0 {
+			// the enumeration: every (thread, k-th lock acquisition) x two delays, then every head start
+			mu.Lock()
+			for t := 0; t < n; t++ {
+				for k := 0; k < counts[t] && k < 24; k++ {
+					for _, d := range []time.Duration{2 * time.Millisecond, 12 * time.Millisecond} {
+						plans = append(plans, plan{thread: t, k: k, d: d, leader: -1})
+					}
+				}
+			}
+			mu.Unlock()
+			for t := 0; t < n; t++ {
+				for _, h := range []time.Duration{100 * time.Microsecond, time.Millisecond, 5 * time.Millisecond} {
+					plans = append(plans, plan{thread: -1, leader: t, head: h})
+				}
+			}
+			for i := 0; i < 4; i++ {
+				plans = append(plans, plan{thread: -1, leader: -1})
+			}
+		}
 	}
+	fmt.Printf("C14RACE-PLANS %s %d\n", sc.Name, len(plans))
+}
+
+var c14GoidRe = regexp.MustCompile(`^goroutine (\d+) `)
+
+func c14Goid() string {
+	buf := make([]byte, 64)
+	buf = buf[:runtime.Stack(buf, false)]
+	if m := c14GoidRe.FindSubmatch(buf); m != nil {
+		return string(m[1])
+	}
+	return ""
 }
 
 const c14RaceReps = 40
@@ -706,8 +789,14 @@ func c14RacePass(r *vk.Run, scs []c14Scenario) (reports int) {
 		}(sc)
 	}
 	seen := map[string]bool{}
+	var raceRuns int64
+	defer func() { r.Set("race_pass_runs_with_one_injected_delay_or_head_start", raceRuns) }()
 	for range scs {
 		x := <-ch
+		if m := regexp.MustCompile(`C14RACE-PLANS \S+ (\d+)`).FindSubmatch(x.out); m != nil {
+			n, _ := strconv.Atoi(string(m[1]))
+			raceRuns += int64(n)
+		}
 		for _, rep := range bytes.Split(x.out, []byte("WARNING: DATA RACE"))[1:] {
 			end := bytes.Index(rep, []byte("=================="))
 			if end > 0 {
